@@ -195,10 +195,16 @@ def tables_unit(u, res):
         # far less than the symmetry tolerance still count as equidistant
         pert = pos.copy(); pert[4:] += np.array([[3e-8, -2e-8, 1e-8], [-2e-8, 3e-8, 2e-8], [1e-8, 2e-8, -3e-8], [2e-8, -1e-8, 3e-8], [0, 0, 0]])
         cases.append((lid + "~", L, pert, pert[4:7]))
+    # a non-default tolerance given by the caller decides which images tie: ties broken at the 1e-4 level with symprec = 1e-3
+    for lid in ("cubic", "tric", "nondiag_sc"):
+        L = np.array(LATTICES[lid], dtype=float)
+        pos = np.array([[0, 0, 0], [0.5 + 2e-5, 0.5, 0.5 - 1e-5], [0.5, 1e-5, 0], [0.5 - 2e-5, 0.5, 1e-5], [0.9, 0.5, 0.1]])
+        cases.append((lid + "@1e-3", L, pos, pos[:3]))
     nbad = 0
     for lid, L, spos, ppos in cases:
-        dense, dm = get_smallest_vectors(L, spos, ppos, store_dense_svecs=True)
-        sparse, sm = get_smallest_vectors(L, spos, ppos, store_dense_svecs=False)
+        tol = 1e-3 if lid.endswith("@1e-3") else 1e-5
+        dense, dm = get_smallest_vectors(L, spos, ppos, store_dense_svecs=True, symprec=tol)
+        sparse, sm = get_smallest_vectors(L, spos, ppos, store_dense_svecs=False, symprec=tol)
         ok = True; why = ""
         for i in range(len(spos)):
             for j in range(len(ppos)):
@@ -206,7 +212,7 @@ def tables_unit(u, res):
                 cand = [d0 - np.rint(d0) + np.array(n) for n in itertools.product(range(-3, 4), repeat=3)]
                 lens = np.array([np.linalg.norm(c @ L) for c in cand])
                 mn = lens.min()
-                want = sorted(tuple(np.round(c, 6)) for c, l in zip(cand, lens) if l - mn < 1e-5)
+                want = sorted(tuple(np.round(c, 6)) for c, l in zip(cand, lens) if l - mn < tol)
                 m, adr = dm[i, j]
                 got = sorted(tuple(np.round(v, 6)) for v in dense[adr:adr + m])
                 gots = sorted(tuple(np.round(v, 6)) for v in sparse[i, j, :sm[i, j]])
